@@ -10,7 +10,8 @@ import (
 
 func init() {
 	for _, k := range []string{"mute-interval-contains-now-in-utc", "mute-interval-contains-now-in-local-zone-only", "active-interval-contains-now-in-utc",
-		"active-interval-contains-now-in-local-zone-only", "mute-interval-with-location-contains-now"} {
+		"active-interval-contains-now-in-local-zone-only", "mute-interval-with-location-contains-now",
+		"mute-interval-on-a-route-to-a-receiver-without-integrations", "active-interval-on-a-route-to-a-receiver-without-integrations"} {
 		register("C15", k, c15Scenario)
 	}
 	register("C15", "muted-state-in-api-follows-reloads", c15Reloads)
@@ -158,13 +159,18 @@ func c15Scenario(s *sc) {
 		ti.Times, route.Active, wantMuted = utcNow, []string{"ti"}, false
 	case "active-interval-contains-now-in-local-zone-only":
 		ti.Times, route.Active, wantMuted = localNow, []string{"ti"}, true
+	case "mute-interval-on-a-route-to-a-receiver-without-integrations":
+		// nothing is ever sent to such a receiver, but the group is still muted and must be reported so
+		ti.Times, route.Mute, route.Receiver, wantMuted = utcNow, []string{"ti"}, "blackhole", true
+	case "active-interval-on-a-route-to-a-receiver-without-integrations":
+		ti.Times, route.Active, route.Receiver, wantMuted = localNow, []string{"ti"}, "blackhole", true
 	case "mute-interval-with-location-contains-now":
 		// Etc/GMT-12 is UTC+12: the host's wall clock
 		ti.Times, ti.Loc, route.Mute, wantMuted = localNow, "Etc/GMT-12", []string{"ti"}, true
 	}
 	conf := Conf{
 		Root:      Route{Receiver: "r0", GroupBy: []string{"id"}, GW: gw, GI: gi, RI: time.Hour, Routes: []Route{route}},
-		Receivers: []Recv{{Name: "r0", Hooks: []Hook{{SendResolved: false}}}},
+		Receivers: []Recv{{Name: "r0", Hooks: []Hook{{SendResolved: false}}}, {Name: "blackhole"}},
 		Intervals: []Interval{ti},
 		MuteStyle: len(route.Mute) > 0 && s.c.Seed%2 == 0,
 	}
